@@ -38,6 +38,28 @@ type clientCore struct {
 	stopTarget int64 // value of clientStops once the current client has been torn down
 	inWin chan struct{}
 	relse chan struct{}
+	// message callback ids used by the Subscribe calls of this episode.  A callback id stands for
+	// the *request*: service.subscribe allocates one &onPublish pointer per call, and the client
+	// invokes each pointer once per delivered message.  A second Subscribe under a used id would be
+	// a different pointer with the same label, so such a line is refused (bad-op) on both sides.
+	usedCb map[int]bool
+}
+
+// subCbReused reports whether the api words are a Subscribe whose callback id was used before in
+// this episode; otherwise it records the id.
+func (c *clientCore) subCbReused(api []string) bool {
+	if len(api) < 5 || api[0] != "sub" {
+		return false
+	}
+	cb := atoi(api[4])
+	if c.usedCb[cb] {
+		return true
+	}
+	if c.usedCb == nil {
+		c.usedCb = map[int]bool{}
+	}
+	c.usedCb[cb] = true
+	return false
 }
 
 func init() {
@@ -405,6 +427,7 @@ func (c *clientCore) handle(ws []string) string {
 		c.log = nil
 		c.pendingBarrierPongs = 0
 		c.pingsSent = 0
+		c.usedCb = nil
 		return "reset"
 	case "connect":
 		ln, err := net.Listen("tcp", "127.0.0.1:0")
@@ -477,6 +500,9 @@ func (c *clientCore) handle(ws []string) string {
 		}
 		return "CONNECTERR"
 	case "api":
+		if c.subCbReused(ws[1:]) {
+			return "bad-op"
+		}
 		if c.cln == nil {
 			return "apierr"
 		}
@@ -503,14 +529,17 @@ func (c *clientCore) handle(ws []string) string {
 		ok := c.sync()
 		return c.collect(nil, ok)
 	case "early":
-		if c.cln == nil {
-			return "apierr"
-		}
 		var api, ack []string
 		for i, w := range ws {
 			if w == "|" {
 				api, ack = ws[1:i], ws[i+1:]
 			}
+		}
+		if c.subCbReused(api) {
+			return "bad-op"
+		}
+		if c.cln == nil {
+			return "apierr"
 		}
 		c.mu.Lock()
 		c.armed = true
@@ -550,7 +579,6 @@ func genClient(seed int64, n int, tier string, w *bufio.Writer) {
 		// (several outstanding pings, PINGRESPs interleaved with the other acknowledgements, more
 		// PINGRESPs than pings).
 		pingy := r.Intn(4) == 0
-		allowOverlapFilters := r.Intn(5) == 0
 		if r.Intn(8) == 0 {
 			switch r.Intn(4) {
 			case 0:
@@ -629,12 +657,14 @@ func genClient(seed int64, n int, tier string, w *bufio.Writer) {
 			case k < 34:
 				cb++
 				cnt := 1 + r.Intn(3)
+				nonOverlap := r.Intn(3) == 0 // one request in three: pairwise non-overlapping filters
 				var parts []string
 				used := map[string]bool{}
 				for j := 0; j < cnt; j++ {
+					// any filters: those of one request may overlap (a/+ with a/b, # with everything),
+					// its callback then still gets a matching message once
 					f := pick(r, filts)
-					if !allowOverlapFilters {
-						// keep the filters of one request pairwise non-overlapping
+					if nonOverlap {
 						f = []string{"a", "b", "x/+"}[j%3]
 						if r.Intn(2) == 0 {
 							f = []string{"a/b", "b", "x/y"}[j%3]
